@@ -814,12 +814,8 @@ def search(ctx, deep=False):
     bad, acc, scope, window, nested = classify([b for (_, b) in pend])
     for k, (f, _) in enumerate(pend):
         if f["what"] in ("observation", "final-contents"):
-            if k in acc:
-                f["klass"] = CLASS_ACC
-            elif k in scope:
+            if k in scope:
                 f["klass"] = CLASS_SCOPE
-            elif k in bad:
-                f["klass"] = CLASS_ORDER
             elif k in window:
                 f["klass"] = CLASS_WINDOW
             elif k in nested:
@@ -842,13 +838,11 @@ def replay_known(ctx, entry):
     bad, acc, scope, window, nested = classify([info["before"]])
     if entry["class"] == CLASS_NESTED:
         return 0 in nested
-    if entry["class"] == CLASS_ACC:
-        return 0 in acc
     if entry["class"] == CLASS_WINDOW:
         return 0 in window
     if entry["class"] == CLASS_SCOPE:
-        return 0 in scope and 0 not in acc
-    return 0 in bad and 0 not in acc and 0 not in scope
+        return 0 in scope
+    return False
 
 
 def replay(ctx, obj):
